@@ -186,6 +186,8 @@ class Frame:
         self.returned = z3.BoolVal(False)
         self.loops = []          # stack of dicts: name, exited, cycled
         self.stmtfuncs = {}
+        self.cray = {}           # Cray pointer (integer address variable) name -> pointee array name
+        self.regions = []        # address ranges handed to pointees of this frame: (lo, hi, pointee)
 
     def live(self, pc):
         conds = [pc, z3.Not(self.returned)]
@@ -480,6 +482,16 @@ class Interp(ExprEnc):
         kw = dict(e.kw_parameters or {})
         if fname in ('selected_real_kind', 'selected_int_kind', 'kind'):
             return self.sem.int_lit(8)     # kind values carry no behaviour in this semantics
+        if fname == 'c_sizeof':
+            return self.sem.int_lit(self.bytes_of_expr(params[0]))
+        if fname == 'ishft':
+            a, sh = self.enc(params[0]), self.concrete(self.enc(params[1]), 'shift count')
+            if sh >= 0:
+                return self.sem.mul(a, self.sem.int_lit(2 ** sh))
+            self.sem.defined.append(a >= 0)          # logical shift of a negative value is outside the model
+            return self.sem.fdiv_floor(a, self.sem.int_lit(2 ** (-sh)))
+        if fname == 'loc':
+            return self.address_of(params[0])
         if fname == 'present':
             try:
                 obj = self.find(params[0].name)
@@ -742,9 +754,15 @@ class Interp(ExprEnc):
         return None
 
     def collect_stmtfuncs(self, routine, fr):
+        import re as _re  # pylint: disable=import-outside-toplevel
         for n in routine.spec.body if routine.spec is not None else ():
             if isinstance(n, ir.StatementFunction):
                 fr.stmtfuncs[n.variable.name.lower()] = n
+            elif isinstance(n, ir.GenericStmt):
+                m = _re.match(r'\s*pointer\s*\(\s*(\w+)\s*,\s*(\w+)\s*\)\s*$', str(n.text or ''), _re.I)
+                if m:       # Cray pointer: integer address variable + pointee
+                    fr.cray[m.group(1).lower()] = m.group(2).lower()
+                    fr.vars.setdefault(m.group(1).lower(), Cell(self.sem.isort, None, m.group(1).lower()))
 
     def call_routine(self, callee, arguments, kwarguments, want_result=False):
         caller = self.frame
@@ -763,6 +781,7 @@ class Interp(ExprEnc):
                     break
                 f = f.host
         fr = Frame(callee, host=host)
+        fr.caller = caller
         dummies = list(callee.arguments)
         amap = {}
         for d, a in zip(dummies, arguments):
@@ -956,6 +975,115 @@ class Interp(ExprEnc):
             if pushed:
                 self.node_stack.pop()
 
+    # ---- addresses (Cray pointers of the pool allocator): every array object has a base address; a pointee keeps its own
+    # storage (it is an ordinary local array), the address arithmetic only decides whether the region it was given lies
+    # inside the allocation it was carved from and does not overlap another live pointee
+    def kind_bytes(self, t):
+        """storage size of one element of type t (gfortran x86-64 defaults)"""
+        d = t.dtype
+        k = t.kind
+        if k is None:
+            return 4
+        ks = str(k).lower()
+        if ks.isdigit():
+            return int(ks)
+        if ks in ('real64', 'int64', 'c_double', 'c_int64_t', 'c_long'):
+            return 8
+        if ks in ('real32', 'int32', 'c_float', 'c_int'):
+            return 4
+        try:
+            obj = self.find(ks)
+            init = None
+            for fr in [self.frame] + list(self.modframes.values()):
+                for v in getattr(fr.routine, 'variables', ()):
+                    if v.name.lower() == ks and v.type.initial is not None:
+                        init = v.type.initial
+            _ = obj
+        except NotEncoded:
+            init = None
+        if init is None:
+            for m in self.modules.values():
+                for v in m.variables:
+                    if v.name.lower() == ks and v.type.initial is not None:
+                        init = v.type.initial
+        if isinstance(init, sym.InlineCall):
+            fn = str(init.function.name).lower()
+            a = [self.concrete(self.enc(x), 'kind argument') for x in init.parameters]
+            if fn == 'selected_real_kind':
+                return 4 if a[0] <= 6 else 8
+            if fn == 'selected_int_kind':
+                return 4 if a[0] <= 9 else 8
+        if isinstance(init, sym.IntLiteral):
+            return int(init.value)
+        raise NotEncoded(f'storage size of kind {k} ({d})')
+
+    def bytes_of_expr(self, e):
+        """C_SIZEOF(REAL(1, kind=k)) / INT(1, kind=k) / LOGICAL(.true.) / a variable"""
+        from loki.types import SymbolAttributes  # pylint: disable=import-outside-toplevel
+        if isinstance(e, ops.Cast):
+            return self.kind_bytes(SymbolAttributes(BasicType.REAL if e.name.lower() == 'real' else BasicType.INTEGER, kind=e.kind))
+        if isinstance(e, sym.InlineCall):
+            fn = str(e.function.name).lower()
+            kw = {str(k).lower(): v for k, v in (e.kw_parameters or {}).items()}
+            kind = kw.get('kind', e.parameters[1] if len(e.parameters) > 1 else None)
+            if fn in ('real', 'int', 'logical'):
+                return self.kind_bytes(SymbolAttributes({'real': BasicType.REAL, 'int': BasicType.INTEGER, 'logical': BasicType.LOGICAL}[fn], kind=kind))
+        if hasattr(e, 'type') and e.type is not None and e.type.dtype in (BasicType.REAL, BasicType.INTEGER, BasicType.LOGICAL):
+            return self.kind_bytes(e.type)
+        raise NotEncoded(f'C_SIZEOF of {e}')
+
+    def base_address(self, arr):
+        if not hasattr(self, '_bases'):
+            self._bases = {}
+        if id(arr) not in self._bases:
+            self._bases[id(arr)] = (len(self._bases) + 1) << 28
+        return self._bases[id(arr)]
+
+    def address_of(self, e):
+        obj = self.resolve(e)
+        if not isinstance(obj, Arr) or not obj.allocated:
+            raise NotEncoded('LOC of a non-array / unallocated object')
+        nbytes = self.kind_bytes(e.type)
+        dims = getattr(e, 'dimensions', None) or ()
+        idx = [self.concrete(self.enc(d), 'LOC subscript') for d in dims] if dims else [lo for lo, _ in obj.bounds]
+        off, stride = 0, 1
+        for i, (lo, hi) in zip(idx, obj.bounds):
+            off += (i - lo) * stride
+            stride *= max(0, hi - lo + 1)
+        base = self.base_address(obj)
+        if not hasattr(self, '_allocs'):
+            self._allocs = {}
+        self._allocs[base] = base + stride * nbytes          # one past the last byte of the allocation
+        return self.sem.int_lit(base + off * nbytes)
+
+    def cray_assign(self, fr, ipname, val, pc):
+        """IP_x = <address>: the pointee x of this frame now designates [address, address + size)"""
+        pointee = fr.cray[ipname]
+        if not z3.is_true(z3.simplify(pc)):
+            raise NotEncoded('conditional Cray pointer assignment')
+        addr = self.concrete(val, 'Cray pointer value')
+        arr = fr.vars.get(pointee)
+        if not isinstance(arr, Arr):
+            raise NotEncoded(f'pointee {pointee} is not an array')
+        decl = [v for v in fr.routine.variables if v.name.lower() == pointee][0]
+        n = 1
+        for lo, hi in arr.bounds:
+            n *= max(0, hi - lo + 1)
+        size = n * self.kind_bytes(decl.type)
+        allocs = getattr(self, '_allocs', {})
+        owner = [b for b, end in allocs.items() if b <= addr <= end]
+        if not owner:
+            self.trap_if(pc, f'pointee {pointee} is given an address outside every known allocation')
+        elif addr + size > allocs[owner[0]]:
+            self.trap_if(pc, f'pointee {pointee} ({size} bytes at offset {addr - owner[0]}) exceeds its allocation of {allocs[owner[0]] - owner[0]} bytes')
+        f = fr
+        while f is not None:
+            for lo, hi, other in f.regions:
+                if size and lo < addr + size and addr < hi:
+                    self.trap_if(pc, f'pointee {pointee} overlaps pointee {other}')
+            f = getattr(f, 'caller', None)
+        fr.regions = [r for r in fr.regions if r[2] != pointee] + [(addr, addr + size, pointee)]
+
     def note_pragmas(self, pragmas, pc):
         """pragma annotations are part of the observable trace (keyword + content, case/blank-insensitive)"""
         if pragmas is None:
@@ -1134,6 +1262,10 @@ class Interp(ExprEnc):
         return fr.loops[-1]
 
     def exec_assignment(self, lhs, rhs, pc):
+        if self.frame.cray and getattr(lhs, 'name', '').lower() in self.frame.cray:
+            val = self.enc(rhs)
+            self.frame.vars[lhs.name.lower()].set(val, self, pc)
+            return self.cray_assign(self.frame, lhs.name.lower(), val, pc)
         obj = self.resolve(lhs)
         if isinstance(obj, Absent):
             raise NotEncoded('assignment to absent optional')
